@@ -74,7 +74,7 @@ void StringTokenizer::removeEmptyTokens()
 std::string StringTokenizer::unparseRemainingTokens() const
 {
   string s;
-  for (size_t i = currentPosition_; i < tokens_.size() - 1; ++i)
+  for (size_t i = currentPosition_; i + 1 < tokens_.size(); ++i)
   {
     s += tokens_[i] + splits_[i];
   }
